@@ -19,6 +19,11 @@ from sqllineage.runner import LineageRunner  # noqa: E402
 KNOWN = {"D26": lambda cid: cid.endswith("/list/non-validating") or cid == "union/explicit/non-validating"}
 
 
+# D9: a literal in the first branch of a set operation shifts the positional wiring of the later branches
+D9_SQL = "insert into t select 1, a from s1 union all select b, c from s2"
+D9_WANT = {("<default>.s1.a", "<default>.t.a"), ("<default>.s2.c", "<default>.t.a")}
+
+
 def pairs(sql, dialect):
     r = LineageRunner(sql, dialect=dialect)
     return {(str(p[0]), str(p[-1])) for p in r.get_column_lineage()}, r
@@ -37,6 +42,12 @@ def main():
     thorough = "--thorough" in sys.argv
     confirm = sys.argv[sys.argv.index("--confirm") + 1] if "--confirm" in sys.argv else None
     fails, evals, nontrivial = [], 0, set()
+    if confirm == "D9":
+        got, _ = pairs(D9_SQL, "ansi")
+        named = {p for p in got if p[1].endswith(".a")}
+        ok = named == D9_WANT
+        print(json.dumps({"violations": [] if ok else [{"clause": "set_operation_branches_line_up_position_by_position", "sql": D9_SQL, "got": sorted(got), "want_for_column_a": sorted(D9_WANT)}]}))
+        return 0 if ok else 1
     for name, sql, exp in cases():
         for dialect in ("ansi", "non-validating"):
             cid = f"{name}/{dialect}"
